@@ -54,4 +54,5 @@ a1887f0 C02
 58715e3 C01
 50b17e8 C12
 c4bdc93 C12
+318b915 C20
 LIST
